@@ -184,13 +184,12 @@ def step (toks : List String) : String :=
               some (Bleve.ConjSearcher.runImpl (fun _ c => c)
                 (Bleve.ConjSearcher.init ((q0 :: qs).map (fun x => den x docs))) ops)
             | .disj mn qs =>
-              -- the slice searcher (up to DisjunctionHeapTakeover = 10 clauses)
-              if qs.length ≤ 10 then
-                let ops := calls.map (fun c => match c with
-                  | .next => Bleve.BoolSearcher.Op.next | .adv t => Bleve.BoolSearcher.Op.adv t)
-                some (Bleve.DisjSearcher.runImpl (fun _ c => c)
-                  (Bleve.DisjSearcher.init (qs.map (fun x => den x docs)) mn) ops)
-              else Option.none
+              -- both disjunction searchers: the heap variant (more than DisjunctionHeapTakeover = 10
+              -- clauses) selects the same smallest cursors through a priority queue
+              let ops := calls.map (fun c => match c with
+                | .next => Bleve.BoolSearcher.Op.next | .adv t => Bleve.BoolSearcher.Op.adv t)
+              some (Bleve.DisjSearcher.runImpl (fun _ c => c)
+                (Bleve.DisjSearcher.init (qs.map (fun x => den x docs)) mn) ops)
             | _ => Option.none
           let render := fun (l : List (Option Nat)) => joinWith "," (l.map (fun o => match o with
             | some i => toString i | none => "nil"))
